@@ -511,6 +511,12 @@ class C08Executor(readfile.ReadFileExecutor):
             raise Unsupported(f"{self.loc(n)} forking / raising element in generator")
         return [(st, VGen(vars_, z3.And(conds), self.truth(r[0][0], r[0][1]).t))]
 
+    def b_reversed(self, st, args, kwargs, node):
+        if args and isinstance(args[0], VSeq):
+            q = args[0]
+            return [(st, VSeq(q.length, lambda i, q=q: q.elem(q.length - 1 - i), q.ekind, q.is_bytes, tag=("reversed", q.tag)))]
+        return super().b_reversed(st, args, kwargs, node)
+
     def b_any(self, st, args, kwargs, node):
         if args and isinstance(args[0], VGen):
             g = args[0]
@@ -918,6 +924,7 @@ def install_archive_models(reg):
     reg.method_models[("SevenZipFile", "list")] = lambda ex, st, o, a, k, n: (_exc_any_unless_signal(ex, st.fork(), "SevenZipFile.list", z3.BoolVal(False)), [(st, VUnk("file_list"))])[1]
     reg.attr_models[("Folder", "coders")] = lambda ex, st, o: VSeq(NCOD(o.t), lambda j: VTuple([VExt("CoderId", CID(o.t, j)), VUnk("props")]), "tuple")
     reg.method_models[("CoderId", "startswith")] = m_cid_startswith
+    reg.attr_models[("Folder", "unpack_sizes")] = lambda ex, st, o: VUnk("unpack_sizes")
     # os.path.basename on a str: ASSUMED total and pure
     reg.ext_models["os.path.basename"] = lambda ex, st, args, kwargs, node: [(st, VStr(z3.String(fresh_name("basename"))))]
 
@@ -1085,6 +1092,40 @@ def archive_contracts(reg):
                                 if c.ex.uni.known(aes_signal(c.ex.module.repo)[0]) else z3.BoolVal(False)), is_aes(c.args["coder_id"].t)))],
         note="an AES coder is never decoded / passed through: Bad7zFile"))
     EXECUTOR_KW[f"{SEVEN}::SevenZipReader._apply_decoder"] = {"abstract": True, "inline_calls": False}
+
+    # _decompress_folder: the coder chain of a folder (also of the encoded header's folder) is decoded through _apply_decoder,
+    # coder by coder -- data comes back only if NO coder of the folder is AES
+    def folder_has_aes(fo, upto=None):
+        j = z3.Int("j!dec")
+        return z3.Exists([j], z3.And(j >= 0, j < (NCOD(fo) if upto is None else upto), is_aes(CID(fo, j))))
+
+    def dec_inv(lc):
+        fo = lc.entry.lookup("folder")
+        if not isinstance(fo, VExt):
+            return z3.BoolVal(False)
+        j = z3.Int("j!dinv")
+        n = NCOD(fo.t)
+        # the coders already applied (the last lc.i of the chain) are not AES
+        return z3.ForAll([j], z3.Implies(z3.And(j >= n - lc.i, j < n), z3.Not(is_aes(CID(fo.t, j)))), patterns=[CID(fo.t, j)])
+
+    def dec_signal_only_aes(c):
+        name, dedicated = aes_signal(c.ex.module.repo)
+        if not (dedicated and c.ex.uni.known(name)) or "site" in c.exc.attrs:
+            return z3.BoolVal(True)
+        return z3.Implies(c.ex.uni.subclass_term(c.exc.tidx, name), folder_has_aes(c.args["folder"].t))
+
+    t = f"{SEVEN}::SevenZipReader._decompress_folder"
+    out.append(FnContract(
+        target=t,
+        params=[("self", p_obj("SevenZipReader", {"_archive_file": p_unk()})), ("folder", p_ext("Folder")), ("pack_pos", p_unk()),
+                ("pack_sizes", p_unk()), ("source_file", p_unk())],
+        requires=lambda c: NCOD(c.args["folder"].t) >= 0, modifies=("self",),
+        ensures=[("decoded-data-only-if-no-coder-of-the-folder-is-aes", lambda c: z3.Not(folder_has_aes(c.args["folder"].t)))],
+        raises=[Raises("Exception", sub=True)],
+        exc_ensures=[("encryption-signal-only-if-some-coder-is-aes", dec_signal_only_aes)],
+        loops={0: LoopSpec(inv=dec_inv, label="coder-chain")},
+        note="every coder of the chain goes through _apply_decoder (contract: an AES coder never returns data)"))
+    EXECUTOR_KW[t] = {"abstract": True, "inline_calls": False}
     return out
 
 
@@ -1582,6 +1623,35 @@ def policy(repo, tier):
         fns.append(dict(m.fn_info("read_pdf"), obligations=1))
     obls.append(ground_obligation("C08/pdf_extractor.py::read_pdf/policy#aes-provider-ensured-before-decrypt", ok, why, PDF,
                                   definite=bool(f is not None)))
+    # P5: entry point "attachments of an e-mail": the file-encrypted error of an attachment's extractor is passed on, not
+    #     swallowed by the per-attachment `except Exception` (handler order on the real AST)
+    DT = X + "data_types.py"
+    m = loader.module(DT, repo)
+    f = m.functions.get("EmailContent.iterate_supported_attachments")
+    oid = "C08/data_types.py::EmailContent.iterate_supported_attachments/policy#encrypted-error-of-an-attachment-is-passed-on"
+    if f is None:
+        obls.append(ground_obligation(oid, False, "function missing", DT, definite=False))
+    else:
+        tries = [t for t in ast.walk(f) if isinstance(t, ast.Try) and any(isinstance(n, (ast.Yield, ast.YieldFrom)) for b in t.body for n in ast.walk(b))]
+        if len(tries) != 1:
+            obls.append(ground_obligation(oid, False, f"{len(tries)} try statements around the extractor call: shape not recognised", DT, definite=False))
+        else:
+            from pyvc.exctypes import Universe
+            uni_ = Universe(repo or loader.REPO)
+            verdict, why = None, "no handler catches the error: it propagates"
+            for h in tries[0].handlers:
+                names = [ast.unparse(e).split(".")[-1] for e in (h.type.elts if isinstance(h.type, ast.Tuple) else [h.type])] if h.type is not None else ["BaseException"]
+                if any(uni_.known(n) and uni_.is_subclass(ENCERR, n) for n in names):
+                    passes = bool(h.body) and isinstance(h.body[-1], ast.Raise) and (h.body[-1].exc is None or ENCERR in ast.unparse(h.body[-1].exc)) \
+                        and not any(isinstance(n, (ast.Return, ast.Continue, ast.Break)) for b in h.body for n in ast.walk(b))
+                    verdict, why = passes, f"first matching handler `except {', '.join(names)}` at line {h.lineno} " + ("re-raises" if passes else "does not re-raise it")
+                    break
+            outer = [t for t in ast.walk(f) if isinstance(t, ast.Try) and t is not tries[0] and any(n is tries[0] for n in ast.walk(t)) and t.handlers]
+            if outer:
+                obls.append(ground_obligation(oid, False, "enclosing try with handlers: shape not recognised", DT, definite=False))
+            else:
+                obls.append(ground_obligation(oid, verdict is not False, why, DT))
+        fns.append(dict(m.fn_info("EmailContent.iterate_supported_attachments"), obligations=1))
     return {"obligations": obls, "functions": fns}
 
 
